@@ -228,6 +228,10 @@ def pipeline(ctx, pid, extra_classes=()):
     for h in rows:
         for line in h.get("mon") or []:
             c = mon_class(line)
+            if pid == "C02" and c == "C01" and "locally assembled" in line:
+                # "never publishes ... while fewer than quorum distinct members have signed" is C02's own clause: a locally assembled
+                # VAA without a valid quorum of the observation-time set is a C02 violation as much as a C01 one
+                c = "C02"
             if line.startswith("processor blocked"):
                 # a handler that never returns stalls the processor's only goroutine: nothing is published (C02), retried or
                 # expired (C14) any more and the node stops processing inputs (C13)
